@@ -39,7 +39,7 @@ def e2(ctx):
             finally:
                 scn._read_gitignore = real_read
             if cfg["gitignore"] is not None:
-                srcs += [ln for ln in cfg["gitignore"].splitlines()]
+                srcs += [ln for ln in cfg["gitignore"].splitlines() if ln]     # pathspec drops empty lines before compiling
             pats = list(spec.patterns)
             if len(pats) != len(srcs):
                 ctx.violation(f"spec-size:cfg{ci}", f"exclude spec has {len(pats)} patterns for {len(srcs)} configured entries (an exclusion source is dropped or duplicated)", {"cfg": cfg})
